@@ -4,6 +4,10 @@ Require Import SF.Prelude SF.Dtype SF.Value SF.RelJoinVal SF.RelShift.
 Definition vncol := (val * list val)%type.
 Definition vlframe := lframe val val.
 
+Definition vlf (n : nat) (levels cols : list vncol) : vlframe := mk_lframe n levels cols.
+Definition OkL (f : vlframe) : res vlframe := Ok f.
+Definition ErrL (e : string) : res vlframe := Err e.
+
 Definition zrange (n : nat) : list val := map (fun i => VInt (Z.of_nat i)) (seq 0 n).
 Definition v_auto_level (n : nat) : vncol := (VStr "__index0__", zrange n).
 
